@@ -222,7 +222,11 @@ func bytesCoq(b []byte) string {
 	return coqfmt.Bytes(b)
 }
 
-func (e Env) Coq(extra []string) string {
+// envDefs: the resolver tables that occur, defined once per shard file (they repeat across cases)
+var envDefs = map[string]string{}
+var envOrder []string
+
+func (e Env) baseName() string {
 	var d4, d []string
 	hosts := make([]string, 0, len(e.DNS))
 	for h := range e.DNS {
@@ -235,6 +239,19 @@ func (e Env) Coq(extra []string) string {
 		d4 = append(d4, fmt.Sprintf("(%s, %s)", coqfmt.Str(h), coqfmt.StrList(rendered(l4))))
 		d = append(d, fmt.Sprintf("(%s, %s)", coqfmt.Str(h), coqfmt.StrList(rendered(l))))
 	}
+	base := fmt.Sprintf("{| e_dns4 := %s; e_dns := %s; e_myip := %s; e_myipex := %s; e_ip6 := []; e_cidr6 := [] |}",
+		coqfmt.List("(str * list str)", d4), coqfmt.List("(str * list str)", d),
+		coqfmt.StrList(rendered(ips(e.MyIP))), coqfmt.StrList(rendered(ips(e.MyIPEx))))
+	if n, ok := envDefs[base]; ok {
+		return n
+	}
+	n := fmt.Sprintf("env_%d", len(envDefs))
+	envDefs[base] = n
+	envOrder = append(envOrder, base)
+	return n
+}
+
+func (e Env) Coq(extra []string) string {
 	var ip6, cidr6 []string
 	seen := map[string]bool{}
 	for _, s := range extra {
@@ -252,9 +269,7 @@ func (e Env) Coq(extra []string) string {
 			}
 		}
 	}
-	return fmt.Sprintf("{| e_dns4 := %s; e_dns := %s; e_myip := %s; e_myipex := %s; e_ip6 := %s; e_cidr6 := %s |}",
-		coqfmt.List("(str * list str)", d4), coqfmt.List("(str * list str)", d),
-		coqfmt.StrList(rendered(ips(e.MyIP))), coqfmt.StrList(rendered(ips(e.MyIPEx))),
+	return fmt.Sprintf("(env_with %s %s %s)", e.baseName(),
 		coqfmt.List("(str * list N)", ip6), coqfmt.List("(str * (list N * list N))", cidr6))
 }
 
@@ -349,9 +364,20 @@ const globSafe = "abcdefgxyzABC0123456789.-_/:~%=&@,;!# "
 // a glob derived from the text: literal pieces kept, runs replaced by '*', characters by '?'
 func genGlobFor(r *rng.R, s string) string {
 	var sb strings.Builder
+	// the model's matcher (and the reference glob) explore every way of splitting the text among
+	// the stars: keep the number of stars small on long texts
+	stars := 3
+	if len(s) > 16 {
+		stars = 2
+	}
 	for i := 0; i < len(s); {
-		switch r.Intn(8) {
+		k := r.Intn(8)
+		if k == 0 && stars == 0 {
+			k = 3
+		}
+		switch k {
 		case 0:
+			stars--
 			sb.WriteByte('*')
 			i += r.Intn(len(s) - i + 1)
 		case 1:
@@ -370,7 +396,7 @@ func genGlobFor(r *rng.R, s string) string {
 			i++
 		}
 	}
-	if r.Chance(1, 6) {
+	if stars > 0 && r.Chance(1, 6) {
 		sb.WriteByte('*')
 	}
 	return sb.String()
@@ -559,7 +585,9 @@ func genECase(r *rng.R) ECase {
 func corpusE() []ECase {
 	e := Env{DNS: map[string][]string{"good.test": {"10.1.2.3"}, "hi.test": {"200.1.2.3"}}, MyIP: []string{"192.0.2.2"}, MyIPEx: []string{"192.0.2.2", "fd00::2"}}
 	show := func(h string, args ...Arg) Tree { return Tree{K: "show", H: h, Args: args} }
-	mk := func(t Tree) ECase { return ECase{Tree: t, Entry: "fn", Env: e, URL: "http://www.example.com/a.b", Hostname: ""} }
+	mk := func(t Tree) ECase {
+		return ECase{Tree: t, Entry: "fn", Env: e, URL: "http://www.example.com/a.b", Hostname: ""}
+	}
 	var out []ECase
 	for _, t := range []Tree{
 		show("shExpMatch", Lit("a.b"), Lit("a.b")), show("shExpMatch", Lit("axb"), Lit("a.b")), show("shExpMatch", Lit("abc"), Lit("a**c")),
@@ -798,10 +826,21 @@ func poolRun(r *rng.R, scripts, goroutines, perG int) poolReport {
 func writeShard(dir, kind string, idx int, typ, modelF, propF, outF string, cases []string) string {
 	var sb strings.Builder
 	sb.WriteString("From G14 Require Import Check.\nOpen Scope N_scope.\n")
+	for _, base := range envOrder {
+		fmt.Fprintf(&sb, "Definition %s : env := %s.\n", envDefs[base], base)
+	}
 	fmt.Fprintf(&sb, "Definition cases : list %s :=\n  %s.\n", typ, coqfmt.List(typ, cases))
-	fmt.Fprintf(&sb, "Definition M := Eval vm_compute in (bad %s cases).\n", modelF)
-	fmt.Fprintf(&sb, "Definition P := Eval vm_compute in (bad %s cases).\n", propF)
-	fmt.Fprintf(&sb, "Definition U := Eval vm_compute in (bad (fun c => negb (%s c)) cases).\n", outF)
+	if kind == "ecases" {
+		// one evaluation of model and reference per case
+		sb.WriteString("Definition R := Eval vm_compute in (map ecase_code cases).\n")
+		sb.WriteString("Definition M := Eval vm_compute in (bad (fun r => negb (N.testbit r 0)) R).\n")
+		sb.WriteString("Definition P := Eval vm_compute in (bad (fun r => negb (N.testbit r 1)) R).\n")
+		sb.WriteString("Definition U := Eval vm_compute in (bad (fun r => negb (N.testbit r 2)) R).\n")
+	} else {
+		fmt.Fprintf(&sb, "Definition M := Eval vm_compute in (bad %s cases).\n", modelF)
+		fmt.Fprintf(&sb, "Definition P := Eval vm_compute in (bad %s cases).\n", propF)
+		fmt.Fprintf(&sb, "Definition U := Eval vm_compute in (bad (fun c => negb (%s c)) cases).\n", outF)
+	}
 	sb.WriteString("Print M.\nPrint P.\nPrint U.\n")
 	name := fmt.Sprintf("%s_%03d.v", kind, idx)
 	if err := os.WriteFile(filepath.Join(dir, name), []byte(sb.String()), 0o644); err != nil {
@@ -891,7 +930,7 @@ func main() {
 		return
 	}
 
-	nE, nS, nP, nIP := 2500, 400, 1500, 1500
+	nE, nS, nP, nIP := 2000, 400, 1500, 1500
 	poolScripts, poolG, poolPer := 6, 16, 40
 	if *tier == "thorough" {
 		nE, nS, nP, nIP = 30000, 4000, 15000, 15000
